@@ -237,6 +237,11 @@ func (in *Interp) intrinsic(fr *Frame, name string, args []Value, fn *ssa.Functi
 			return r
 		}
 	}
+	if strings.Contains(name, "sync") {
+		if r, ok := in.syncIntrinsic(fr, name, args); ok {
+			return r
+		}
+	}
 	if strings.Contains(name, "reflect.") {
 		if r, ok := in.reflectIntrinsic(fr, name, args); ok {
 			return r
@@ -347,6 +352,11 @@ func (in *Interp) intrinsic(fr *Frame, name string, args []Value, fn *ssa.Functi
 		"strings.Count", "strings.EqualFold", "strings.Fields", "strings.LastIndex", "strings.Trim", "strings.TrimLeft", "strings.TrimRight",
 		"strings.IndexRune", "strings.ContainsRune", "strings.ContainsAny", "strings.IndexAny":
 		if !allConcrete(args) {
+			if hay, ok := args[0].(string); ok && (name == "strings.ContainsRune" || name == "strings.IndexByte" || name == "strings.IndexRune") {
+				if r, ok := args[1].(*Term); ok {
+					return in.symNeedle(name, hay, r)
+				}
+			}
 			panic(pathAbort{"unsupported: " + name + " on a symbolic string"})
 		}
 		return in.nativeStrings(name, args)
@@ -642,8 +652,15 @@ func (in *Interp) intrinsic(fr *Frame, name string, args []Value, fn *ssa.Functi
 		t, ok := in.nativeTime(args[0])
 		if !ok {
 			if name == "(time.Time).String" {
-				ext := args[0].(*Struct).fields[1].v.(*Term)
-				return &Rope{[]Chunk{{atom: in.newAtom("opaque", nil, nil, "time.String("+ext.Pretty(3)+")")}}}
+				st := args[0].(*Struct)
+				ext := st.fields[1].v.(*Term)
+				a := in.newAtom("opaque", nil, nil, "time.String("+ext.Pretty(3)+")")
+				if w, ok := st.fields[0].v.(int64); ok {
+					if loc, ok := st.fields[2].v.(Ptr); ok {
+						a.key = fmt.Sprintf("time.String|%d|t%d|%p", w, ext.id, loc.c)
+					}
+				}
+				return &Rope{[]Chunk{{atom: a}}}
 			}
 			panic(pathAbort{"unsupported: " + name + " of a symbolic instant"})
 		}
@@ -838,6 +855,42 @@ func (in *Interp) hasPrefix(s, prefix Value) Value {
 		}
 	}
 	return boolOrTerm(in.ts.And(append(conj, in.ts.Bool(true))...))
+}
+
+// symNeedle: a concrete haystack searched for a symbolic byte or rune.
+// ContainsRune is a disjunction (no fork); the Index forms case-split on the
+// first position that matches.
+func (in *Interp) symNeedle(name, hay string, r *Term) Value {
+	ts := in.ts
+	w := r.sort.Width()
+	if name == "strings.ContainsRune" {
+		var alts []*Term
+		seen := map[rune]bool{}
+		for _, c := range hay {
+			if !seen[c] {
+				seen[c] = true
+				alts = append(alts, ts.Eq(r, ts.BV(w, uint64(uint32(c)))))
+			}
+		}
+		if len(alts) == 0 {
+			return false
+		}
+		return boolOrTerm(ts.Or(alts...))
+	}
+	if name == "strings.IndexByte" {
+		for k := 0; k < len(hay); k++ {
+			if in.decide(ts.Eq(r, ts.BV(w, uint64(hay[k])))) {
+				return int64(k)
+			}
+		}
+		return int64(-1)
+	}
+	for k, c := range hay {
+		if in.decide(ts.Eq(r, ts.BV(w, uint64(uint32(c))))) {
+			return int64(k)
+		}
+	}
+	return int64(-1)
 }
 
 // ropeContains: strings.Contains(s, sub) with symbolic s and concrete sub of
